@@ -9,11 +9,13 @@ import json
 import logging
 import multiprocessing as mp
 import warnings
+from fractions import Fraction
 
 import numpy as np
 
 from harness.common import Check, args, emit
 from harness._c01_oracle import oracle_q, oracle_q_fast, oracle_labels
+from harness._c01_scales import TABLES, FAMILIES, N_TINY_GAP_TABLES, random_scaled
 
 warnings.filterwarnings("ignore")
 logging.disable(logging.CRITICAL)
@@ -269,6 +271,139 @@ def check_tdc_formula(tier, seed):
 
 
 # ----------------------------------------------------------------------------------------------------------
+# tdc under strictly increasing rescalings: tiny / huge factors, neighbouring floats, affine maps, mixed magnitudes
+# (only EXACTLY equal scores are ties, however close two distinct scores are)
+# ----------------------------------------------------------------------------------------------------------
+def _scale_id(fam, tag, desc, ties, sdt):
+    return "%s:%s/%s/%s/%s" % (fam, tag, "desc" if desc else "asc", "ties" if ties else "noties", sdt)
+
+
+def _scaled_calls(fam, scores, plain_q, lab, enc, desc, expect, sdt, ties):
+    """One real tdc call on rescaled scores: formula + consequences, then exact equality with the result for the
+    plain scores (plain_q, may be None). Returns None or (case id, what, input)."""
+    tag, det = _tdc_one(scores, _enc_labels(lab, enc), desc, expect)
+    if tag is None and plain_q is not None and not np.array_equal(det, plain_q):
+        tag, det = "rescaling-changes-q", {"plain": plain_q.tolist(), "rescaled": det.tolist()}
+    if tag is None:
+        return None
+    inp = {"scores": [float(x) for x in scores], "targets": [int(x) for x in lab], "desc": desc,
+           "score_dtype": sdt, "label_enc": enc}
+    if len(scores) <= 6:                           # (longer records would be cut and could not be replayed)
+        inp["detail"] = det
+    return _scale_id(fam, tag, desc, ties, sdt), tag, inp
+
+
+def _scale_shard(job):
+    """mode 0: every table of both dtypes; mode k > 0: k rotating tables per dtype (both with the plain rank vector
+    in the same dtype as the reference for exact equality); mode -1: one rotating table, float64 twice as often as
+    float32, formula only."""
+    n, rank_list, mode = job
+    calls, digs, vio = 0, [], {}
+    rot = 0
+    for ranks in rank_list:
+        r = np.array(ranks)
+        ties = len(set(ranks)) < n
+        for lab in itertools.product((False, True), repeat=n):
+            nontriv = any(lab) and not all(lab) and len(set(ranks)) > 1
+            for desc in (True, False):
+                rot += 1
+                want = oracle_q(ranks, lab, desc)
+                expect = np.array([float(x) for x in want])
+                enc = LABEL_ENCS[rot % 3]
+                for sdt in ("float64", "float32") if mode >= 0 else (("float64", "float64", "float32")[rot % 3],):
+                    tabs = TABLES[sdt]
+                    if mode:                       # a rotating selection instead of every table
+                        tabs = [tabs[(rot * abs(mode) + j) % len(tabs)] for j in range(abs(mode))]
+                    plain_q = None
+                    if mode >= 0:
+                        # the plain rank vector in the same dtype: its result must be reproduced exactly
+                        tag, plain_q = _tdc_one(r.astype(sdt), _enc_labels(lab, "bool"), desc, expect)
+                        calls += 1
+                        if tag:
+                            plain_q = None         # reported by tdc_formula
+                    for fam, j, table in tabs:
+                        scores = table[r]
+                        if n <= 2 or (rot + j) % (4 if n == 3 else 16) == 0:
+                            # the literal formula on the rescaled scores themselves (exact rationals)
+                            if oracle_q([Fraction(float(x)) for x in scores], lab, desc) != want:
+                                raise AssertionError("harness oracle is not scale invariant: %r %r" % (scores, lab))
+                        v = _scaled_calls(fam, scores, plain_q, lab, enc, desc, expect, sdt, ties)
+                        calls += 1
+                        if nontriv:
+                            digs.append(_digest((sdt, fam, j, ranks, lab, desc)))
+                        if v and (v[0] not in vio or n < vio[v[0]][0]):
+                            vio[v[0]] = (n,) + v[1:]
+    return calls, digs, vio
+
+
+def check_tdc_rescaling(tier, seed):
+    nmax = 5 if tier == "quick" else 6
+    nfull = 3 if tier == "quick" else 4
+    per_case = 6 if tier == "quick" else 3
+    n_rand = 1200 if tier == "quick" else 10000
+    ntab = {d: len(TABLES[d]) for d in TABLES}
+    ck = Check(
+        "tdc_rescaling", "mokapot.qvalues.tdc",
+        "exhaustive: every weak ordering x labelling x direction for n = 1..%d, the rank values 0..5 mapped through "
+        "strictly increasing 6-entry tables of the classes %s (%d float64 tables, %d of them with neighbouring gaps "
+        "<= 2.2e-16; %d float32 tables, %d such): every table for n <= %d, %d rotating tables per dtype for n = %d, "
+        "one rotating table (float64 twice as often as float32) for n = %d; label encoding rotating; random: %d "
+        "vectors (seed %d) of length 7..48 on integer lattices with ties, "
+        "pushed through random maps of the same classes (factors 1e-300..1e305, chains of neighbouring floats at "
+        "magnitudes 1e-300..1e300, subnormals, affine maps, magnitudes mixed over 600 decades), float64 and float32; "
+        "tolerance %g relative to the exact rational oracle; for n <= %d and the random lattice vectors also exact "
+        "equality with the result for the plain ranks"
+        % (nmax, list(FAMILIES), ntab["float64"], N_TINY_GAP_TABLES["float64"], ntab["float32"],
+           N_TINY_GAP_TABLES["float32"], nfull, per_case, nfull + 1, nmax, n_rand, seed, REL_TOL, nfull + 1),
+        "the tables are verified strictly increasing in exact rationals, so the expected q-values are those of the "
+        "rank vector (literal formula in Fractions; re-evaluated on the rescaled scores themselves for n <= 2, "
+        "every 4th call for n = 3 and every 16th call above); two scores are tied only if they are exactly equal; random vectors: formula evaluated with "
+        "exact float comparisons on the scores; non-trivial = at least one target, one decoy and two distinct scores")
+    jobs = []
+    for n in range(1, nmax + 1):
+        for part in _chunks(weak_orderings(n), 25 if n >= 5 else 10):
+            jobs.append((n, part, 0 if n <= nfull else per_case if n == nfull + 1 else -1))
+    best = {}
+    for calls, digs, vio in _pool(jobs, _scale_shard):
+        ck.evaluations += calls
+        ck.distinct.update(digs)
+        for cid, v in vio.items():
+            if cid not in best or v[0] < best[cid][0]:
+                best[cid] = v
+    for fam, ranks in (("tiny-factor", [0, 1, 1, 2]), ("ulp-neighbours", [3, 0, 2, 1])):
+        table = [t for f, _, t in TABLES["float64"] if f == fam][0]
+        ck.samples.append({"class": fam, "scores": table[ranks].tolist(), "ranks": ranks, "targets": [1, 0, 1, 0]})
+    for fam, scores, ranks, lab, desc, sdt, enc in random_scaled(n_rand, seed):
+        sf = scores.astype(np.float64)
+        want = oracle_q_fast(sf, lab, desc)
+        expect = np.array([float(x) for x in want])
+        ties = len(set(sf.tolist())) < len(sf)
+        ck.case(("rand", sdt, sf.tolist(), lab.tolist(), desc),
+                nontrivial=bool(lab.any() and not lab.all() and len(set(sf.tolist())) > 1))
+        plain_q = None
+        if ranks is not None:
+            if oracle_q_fast(ranks.astype(np.float64), lab, desc) != want:
+                raise AssertionError("harness oracle is not scale invariant: %r %r" % (sf.tolist(), ranks.tolist()))
+            tag, plain_q = _tdc_one(ranks.astype(sdt), lab, desc, expect)
+            if tag:
+                plain_q = None
+        v = _scaled_calls(fam, scores, plain_q, lab, LABEL_ENCS[enc], desc, expect, sdt, ties)
+        if v:
+            cid = "random:" + v[0]
+            if cid not in best:
+                best[cid] = (len(sf),) + v[1:]
+    # one reproducer per class, the classes of different families first
+    order, seen_fam = [], set()
+    for cid in sorted(best, key=lambda c: (best[c][0], "float64" not in c, c)):
+        fam = cid.replace("random:", "").split(":")[0]
+        order.append((fam in seen_fam, len(order), cid))
+        seen_fam.add(fam)
+    for _, _, cid in sorted(order):
+        ck.violation(cid, best[cid][1], best[cid][2])
+    return _freeze(ck)
+
+
+# ----------------------------------------------------------------------------------------------------------
 # _update_labels
 # ----------------------------------------------------------------------------------------------------------
 def _q32(q):
@@ -406,7 +541,9 @@ def REPLAY(check_name, violation):
     scores = inp["scores"]
     lab = [bool(x) for x in inp["targets"]]
     desc = bool(inp["desc"])
-    if check_name == "tdc_formula":
+    if check_name in ("tdc_formula", "tdc_rescaling"):
+        # (tdc_rescaling: the formula on the recorded scores with exact comparisons - two scores one unit in the last
+        # place apart are different scores)
         sdt = inp.get("score_dtype", "float64")
         arr = np.array(scores).astype(sdt)
         want = oracle_q_fast(arr.astype(float), lab, desc)
@@ -424,8 +561,10 @@ def REPLAY(check_name, violation):
 if __name__ == "__main__":
     a = args()
     np.random.seed(a.seed)
-    emit([check_tdc_formula(a.tier, a.seed), check_update_labels(a.tier, a.seed)],
+    emit([check_tdc_formula(a.tier, a.seed), check_tdc_rescaling(a.tier, a.seed), check_update_labels(a.tier, a.seed)],
          ["oracle: exact rational evaluation of the defining formula; candidate thresholds = attained scores, "
           "midpoints and one value beyond each end (the counts are step functions of the threshold)",
           "tdc results are compared with %g relative tolerance because tdc stores the FDR in a float32 buffer" % REL_TOL,
-          "lengths above %d are only sampled (random vectors up to 60/80 elements)" % (5 if a.tier == "quick" else 6)])
+          "lengths above %d are only sampled (random vectors up to 60/80 elements)" % (5 if a.tier == "quick" else 6),
+          "tdc_rescaling: integer score dtypes have no tiny/huge rescalings (their tables touching the dtype limits "
+          "are in tdc_formula); tied = exactly equal as numbers; no NaN/inf scores (the statement says finite)"])
